@@ -170,8 +170,9 @@ def run(prog, chk):
     # ---- what a declaration is checked against does not depend on the declarations visited before it: every visitor of a declaration with
     # a body sets the per-callable members itself (C16's R16.G, run here as R10.1: a "found a return" flag consumed where it is read,
     # instead of reset on entry, lets a void function's `return;` satisfy the next non-void function — accepted or rejected by order)
-    from .C16 import _return_context_rule
-    _return_context_rule(prog, chk, [f_ for f_ in prog.functions if f_.body and f_.file.endswith('semantic_analyser.cpp')], rule='R10.1')
+    from .C16 import _return_context_rule, _GuardAware
+    _afns = [f_ for f_ in prog.functions if f_.body and f_.file.endswith('semantic_analyser.cpp')]
+    _return_context_rule(prog, _GuardAware(chk, prog, _afns), _afns, rule='R10.1')
 
     # ---- R10.1b: every site that stores an entry of a record-valued table fills the same fields ---------------------------------
     # (the pre-declaration pass and the visit of the declaration itself both write m_functionInfo[name]: an entry that the
